@@ -491,8 +491,15 @@ def width(f):
 def make_vals(fields, lens, r):
     """non-zero original values (zeros are what padding adds)"""
     vals = []
+    # every third case carries token-id sized content: odd values above 2**24 have no float32 representation, so a
+    # padded field that went through another dtype no longer holds "the original content"
+    big = r.random() < 1 / 3
+
+    def tok():
+        return r.randrange(2 ** 24 + 1, 2 ** 30, 2) if big and r.random() < 0.5 else r.randint(1, 999)
+
     for b, row in enumerate(lens):
-        vals.append([[r.randint(1, 999) for _ in range(row[k] * width(f))] if f["t"] == "seq" else
+        vals.append([[tok() for _ in range(row[k] * width(f))] if f["t"] == "seq" else
                      ([r.randrange(2 ** 29 + 1, 2 ** 30, 2)] if f.get("fl") else [r.randint(1, 999)])
                      for k, f in enumerate(fields)])
     return vals
